@@ -43,6 +43,86 @@ def material_positions(rng, n):
     return out
 
 
+def parse_board(fen):
+    pl = fen.split()[0]
+    board = {}
+    r, f = 7, 0
+    for ch in pl:
+        if ch == "/":
+            r -= 1
+            f = 0
+        elif ch.isdigit():
+            f += int(ch)
+        else:
+            board[r * 8 + f] = ch
+            f += 1
+    return board
+
+
+def threat_positions(model, rng, mate1, n):
+    """Q: side A to move; a quiet non-pawn move f->t of A reaches P' (B to move) in which A threatens mate in one."""
+    sqn = lambda s: "abcdefgh"[s % 8] + str(s // 8 + 1)
+    cands = []
+    for p in mate1:
+        parts = p.split()
+        a = parts[1]
+        board = parse_board(p)
+        own = [s for s, pc in board.items() if (pc.isupper() == (a == "w")) and pc.upper() in "NBRQ"]
+        rng.shuffle(own)
+        for t in own[:3]:
+            pc = board[t]
+            empt = [s for s in range(64) if s not in board]
+            rng.shuffle(empt)
+            for f in empt[:10]:
+                b2 = dict(board)
+                del b2[t]
+                b2[f] = pc
+                q = posgen.board_to_fen(b2, a, "", None, 0, 1)
+                cands.append((q, sqn(f) + sqn(t), p))
+    rng.shuffle(cands)
+    cands = cands[: 20 * n]
+    valid = set(posgen.filter_valid(model, [c[0] for c in cands]))
+    cands = [c for c in cands if c[0] in valid]
+    rc, res, err = run_lines(model, ["g_legal %s | %s" % (c[0], c[1]) for c in cands], shards=NPROC)
+    out = []
+    for (qf, mv, p), r in zip(cands, res):
+        lists = (r or "").split(" ; ")
+        if len(lists) < 2:
+            continue
+        l0 = lists[0].split()
+        l1 = lists[1].split()
+        # the retracted move must be legal in Q, the defender must have a real choice (>= 10 moves)
+        if mv in l0[1:] and l1 and int(l1[0]) >= 8:
+            out.append(qf)
+        if len(out) >= n:
+            break
+    return out
+
+
+def cage_positions(rng, n):
+    """back-rank cages: the defender's king is boxed in by pawns, a rook move threatens mate on the back rank, the defender has
+    many irrelevant moves on the other wing and only a king step (or a rare interposition) parries"""
+    out = []
+    for _ in range(n):
+        board = {62: "k", 53: "p", 55: "p", 46: "p", 45: "P", 47: "P", 38: "P", 14: "P", 15: "P", 6: "K"}
+        board[rng.choice([0, 1, 2, 3])] = rng.choice("RRQ")
+        for sq_ in (48, 49, 50, 51):
+            if rng.random() < 0.7:
+                board[sq_] = "p"
+        for _k in range(rng.randrange(1, 5)):
+            s_ = rng.choice([56, 57, 58, 59, 40, 41, 42, 43, 32, 33, 34, 35, 24, 25, 26])
+            if s_ not in board:
+                board[s_] = rng.choice("nnbbr")
+        for _k in range(rng.randrange(0, 3)):
+            s_ = rng.choice([8, 9, 10, 16, 17, 18, 19])
+            if s_ not in board:
+                board[s_] = rng.choice("PPNB")
+        f = posgen.board_to_fen(board, "w", "", None, 0, 1)
+        out.append(f)
+        out.append(posgen.mirror_fen(f))
+    return out
+
+
 def run(ctx):
     gen.gen(["consts"])
     ok, failed, out = ctx.prove("Props/Properties_C08")
@@ -111,6 +191,39 @@ def run(ctx):
                 continue      # quiescence without pruning explodes on many-queen positions; those belong to C06/C10
             sessions.append(["go %s | | depth %d nodes 200000" % (f, d) for d in ds])
             meta.append([(f, d, "unbalanced") for d in ds])
+    # mate THREATS: from a position P where A mates in one, give the move to B (P'), then retract one quiet A move to get
+    # Q (A to move) in which that move creates the threat; the defender's node is then a non-first, non-PV child of the root
+    threats = threat_positions(model, rng, mate1, 400 if q else 6000)
+    ctx.notes["mate_threat_positions"] = len(threats)
+    for f in threats:
+        info[f] = {"m1": False, "l1": False, "mating": [], "legal": ["?"]}
+        ds = [3, rng.choice([4, 5])]
+        sessions.append(["go %s | | depth %d nodes 150000" % (f, d) for d in ds])
+        meta.append([(f, d, "threat") for d in ds])
+    # natural positions in which a quiet move creates a mate-in-one threat that only one or two defender moves parry (defender
+    # not in check, >= 13 legal moves).  Candidates are FOUND with the engine's own generator (fast); the judge stays the solver.
+    impl = harness("impl_driver")
+    pool = posgen.valid_positions(model, rng, 1500 if q else 20000, styles=["mid", "pins", "dense", "sparse"])
+    gms = posgen.playouts(model, rng, [rng.choice(pool) for _ in range(300 if q else 4000)], 12, bias=5)
+    rc, gf, err = run_lines(model, ["g_fen %s | %s" % (f, " ".join(ms)) for f, ms in gms], shards=NPROC)
+    for r in gf:
+        pool += [x for x in (r or "").split(" ; ")[1:] if x and not x.startswith("BAD")]
+    pool = [f for f in dict.fromkeys(pool) if sum(ch in "Qq" for ch in f.split()[0]) <= 3]
+    rc, tr, err = run_lines(impl, ["threatscan " + f for f in pool], shards=NPROC, timeout=900)
+    natural = [f for f, r in zip(pool, tr) if (r or "0").isdigit() and int(r) > 0]
+    rng.shuffle(natural)
+    ctx.notes["threat_candidate_pool"] = len(pool)
+    ctx.notes["natural_threat_positions"] = len(natural)
+    for f in natural[: (250 if q else 4000)]:
+        info[f] = {"m1": False, "l1": False, "mating": [], "legal": ["?"]}
+        sessions.append(["go %s | | depth %d nodes 150000" % (f, d) for d in (3, 4)])
+        meta.append([(f, d, "threat") for d in (3, 4)])
+    cages = posgen.filter_valid(model, cage_positions(rng, 150 if q else 2500))
+    ctx.notes["cage_positions"] = len(cages)
+    for f in cages:
+        info[f] = {"m1": False, "l1": False, "mating": [], "legal": ["?"]}
+        sessions.append(["go %s | | depth %d nodes 150000" % (f, d) for d in (3, 4)])
+        meta.append([(f, d, "cage") for d in (3, 4)])
     for f in CORPUS_OTHER:
         if f in info and info[f]["legal"]:
             sessions.append(["go %s | | depth %d" % (f, d) for d in (1, 2, 3, 4)])
